@@ -165,7 +165,15 @@ impl E {
             E::Bin(op, l, r) => format!("{} {} {}", c(l, op.level()), op.text(), c(r, op.level() + 1)),
             E::IsNull(x, neg) => format!("{} IS {}NULL", c(x, 5), if *neg { "NOT " } else { "" }),
             E::Not(x) => format!("NOT {}", c(x, 3)),
-            E::Neg(x) => format!("-{}", c(x, 8)),
+            E::Neg(x) => {
+                let s = c(x, 8);
+                // "--" starts a comment: a negated operand that itself starts with a minus needs a blank
+                if s.starts_with('-') {
+                    format!("- {}", s)
+                } else {
+                    format!("-{}", s)
+                }
+            }
             E::In(x, vs, neg) => format!("{} {}IN ({})", c(x, 5), if *neg { "NOT " } else { "" }, vs.iter().map(|v| c(v, 1)).collect::<Vec<_>>().join(", ")),
             E::Case(cl, el) => format!("CASE {} ELSE {} END", cl.iter().map(|(k, r)| format!("WHEN {} THEN {}", c(k, 1), c(r, 1))).collect::<Vec<_>>().join(" "), c(el, 1)),
             E::Cast(x, t) => format!("{}::{}", c(x, 9), t),
